@@ -207,6 +207,22 @@ func checkC02(p *Prog, r *Report) {
 			rCycle.OK(fnName(fn)+":write", posOf(wcall), "every received line is written before the next receive")
 		}
 	}
+	if nil != wcall {
+		/* 2a': nor does the proxy return with a received line in hand —
+		except over the "channel closed" edge, where there is no line. */
+		closed := map[Edge]bool{}
+		if nil != okVal {
+			for _, bt := range boolTestsOf(fn, okVal) {
+				b := bt.If.Block()
+				closed[Edge{b.Index, b.Succs[1-bt.TrueSucc].Index}] = true
+			}
+		}
+		if bad := (reachQ{From: armStart, Target: isReturn, NoEdges: closed, Block: func(i ssa.Instruction) bool { return i == ssa.Instruction(wcall) }}).run(); nil != bad {
+			rCycle.Bad(fnName(fn)+":write-before-leaving", posOf(bad), "a line taken off the operator's channel can be thrown away: a path from the receive to the end of the proxy (a cancellation test after the receive, say) skips the write — the next shell gets a run with a gap")
+		} else {
+			rCycle.OK(fnName(fn)+":write-before-leaving", posOf(wcall), "the proxy never returns with a received line unwritten")
+		}
+	}
 	if nil == fcall {
 		rCycle.Bad(fnName(fn)+":flush", fn.Pos(), "no call of a flush function found in the input proxy: lines wait in a buffer until later input")
 	} else if nil != wcall {
